@@ -228,7 +228,17 @@ enum Job {
 
 pub fn run(p: &Params) -> Outcome {
     let seed = p.seed;
-    let exhaustive_max = if p.thorough { 32 } else { 24 };
+    // thorough: every field of up to 32 bits is enumerated completely in the release profile;
+    // the overflow-checked profile enumerates up to 28 bits and samples above (2^30 each)
+    let exhaustive_max = if p.thorough {
+        if p.profile == "relchk" {
+            28
+        } else {
+            32
+        }
+    } else {
+        24
+    };
     let n_samples: u64 = p.size(1 << 22, 1 << 30);
     let mut jobs: Vec<Job> = Vec::new();
     for (i, f) in FIELDS.iter().enumerate() {
